@@ -1,7 +1,7 @@
 (* C20 - Writer output does not depend on how write(2) fragments the I/O *)
 From Coq Require Import NArith ZArith List Lia.
-From Mtbl Require Import gen.Consts model.Bytes model.Order model.Block model.Writer model.WriteLoop
-  proofs.WriterProofs proofs.WriteLoopProofs.
+From Mtbl Require Import gen.Consts model.Bytes model.Order model.Block model.Writer model.WriteLoop model.WriteLoopErrno
+  proofs.WriterProofs proofs.WriteLoopProofs proofs.WriteLoopErrnoProofs.
 (* source ties: the statements of the C functions the model follows (gen/Ties.v is regenerated from /repo on every run) *)
 From Mtbl Require props.Ties_C20.
 Local Open Scope N_scope.
@@ -60,3 +60,25 @@ Example T20_example :
   write_all [OPartial 2; OErr] [] [1; 2; 3] = Abort /\
   write_all [OPartial 3; OErr] [] [1; 2; 3] = Ok ([1; 2; 3], [OErr]).
 Proof. repeat split. Qed.
+
+(* T20c: the same loop one level down (model/WriteLoopErrno.v): write(2) gives a return value and errno, the loop makes
+   the tests the C code makes (r < 0 && errno == EINTR; r <= 0), errno is state.  Whatever errno held when the writer
+   was entered (left behind by any earlier call) and whatever writes that SUCCEED - in full, short, or with 0 - do to
+   errno, the errno-level session is the outcome-level session of T20a / T20b: so those theorems speak about the loop
+   as written, and a stale EINTR in errno can change nothing.  (Added after the seeded change C20-13, which tested
+   errno == EINTR after a short but successful write.) *)
+Theorem T20c_errno_level_refines : forall (succ_errno : outcome -> eno -> eno) chunks os e file,
+  strip_e (write_chunks_e succ_errno os e file chunks) = write_chunks os file chunks.
+Proof. exact write_chunks_e_refines. Qed.
+Print Assumptions T20c_errno_level_refines.
+
+Theorem T20c_stale_errno_irrelevant : forall g1 g2 e1 e2 os file chunks,
+  strip_e (write_chunks_e g1 os e1 file chunks) = strip_e (write_chunks_e g2 os e2 file chunks).
+Proof. exact stale_errno_irrelevant. Qed.
+Print Assumptions T20c_stale_errno_irrelevant.
+
+Example T20c_example :
+  (* errno = EINTR on entry, every successful write sets errno to EINTR again: short writes are still not retried *)
+  write_chunks_e (fun _ _ => E_intr) [OPartial 2; OEintr; OPartial 1; OFull] E_intr [9] [[1; 2; 3; 4; 5]; [6]]
+  = Ok ([9; 1; 2; 3; 4; 5; 6], [], E_intr).
+Proof. vm_compute. reflexivity. Qed.
